@@ -325,33 +325,46 @@ func batch(res *evid.Result, bi int, root string) {
 			// they finish within one wall-clock second of each other, the situation a script
 			// indexing several small directories produces all the time. The duration of the
 			// first run is measured on a throw-away database first.
-			t0 := time.Now()
-			if err := quietIndex(basePath, "IDX", db+".warmup"); err != nil {
-				res.Violate("cli/index-failed", fmt.Sprintf("index (in-process) failed: %v", err), nil)
-				continue
-			}
-			dur := time.Since(t0)
-			end := time.Now().Add(dur)
-			wait := time.Duration(0)
-			if frac := time.Duration(end.Nanosecond()); frac > 150*time.Millisecond {
-				wait = time.Second - frac + 100*time.Millisecond
-			}
-			time.Sleep(wait)
-			if err := quietIndex(basePath, "IDX", db); err != nil {
-				res.Violate("cli/index-failed", fmt.Sprintf("index (in-process) failed: %v", err), nil)
-				continue
-			}
-			if f := time.Now().Nanosecond(); f < int(600*time.Millisecond) {
-				res.Count("incremental_runs_started_early_in_a_second", 1)
-			}
-			failed := false
-			for k := 0; k < 2; k++ {
-				if err := quietIndex(otherPath, fmt.Sprintf("OTH%d", k), db); err != nil {
-					res.Violate("cli/index-failed", fmt.Sprintf("second index run into %s failed: %v", dbName, err), nil)
-					failed = true
+			dur := 600 * time.Millisecond // first guess; replaced by the measured duration
+			built := false
+			for attempt := 0; attempt < 5 && !built; attempt++ {
+				os.RemoveAll(db)
+				os.Remove(db)
+				end := time.Now().Add(dur)
+				if frac := time.Duration(end.Nanosecond()); frac > 150*time.Millisecond {
+					time.Sleep(time.Second - frac + 100*time.Millisecond)
+				}
+				t0 := time.Now()
+				if err := quietIndex(basePath, "IDX", db); err != nil {
+					res.Violate("cli/index-failed", fmt.Sprintf("index (in-process) failed: %v", err), nil)
+					break
+				}
+				dur = time.Since(t0)
+				secBase := time.Now().Unix()
+				same, failed := false, false
+				for k := 0; k < 2; k++ {
+					if err := quietIndex(otherPath, fmt.Sprintf("OTH%d", k), db); err != nil {
+						res.Violate("cli/index-failed", fmt.Sprintf("second index run into %s failed: %v", dbName, err), nil)
+						failed = true
+					}
+					if k == 0 && time.Now().Unix() == secBase {
+						same = true
+					}
+				}
+				if failed {
+					break
+				}
+				res.Count("incremental_build_attempts", 1)
+				// the wanted situation (the next run ends in the same second as the first) came
+				// about, or the attempts are used up: judge this database either way
+				if same || attempt == 4 {
+					built = true
+					if same {
+						res.Count("incremental_runs_within_one_second", 1)
+					}
 				}
 			}
-			if failed {
+			if !built {
 				continue
 			}
 			res.Count("incremental_databases", 1)
